@@ -29,6 +29,8 @@ Next == /\ phase[1] = "b"
                     /\ phase' = <<"c", tr, m, cap, af, "w", Request(tr, TRUE, m = 1, Sq, Ad, words, [k \in 1..words * ws |-> (k * 37) % 251])>>
               \/ \E words \in 0..((cap + 6) \div ws), af \in {0, 1} :                       \* reads around the limit
                     phase' = <<"c", tr, m, cap, af, "r", Request(tr, FALSE, m = 1, Sq, Ad, words, <<>>)>>
+              \/ \E hi \in {1, 32767, 32768, 65535}, lo \in {0, 1, 5, 65535}, ws16 \in {0, 1} :        \* reads of 2^16 .. 2^32 - 1 words
+                    phase' = <<"c", tr, m, cap, 0, "r", FrameOctets(T_RREQ, Opts(tr, ws16 = 1, FALSE), 0, Sq, Ad, <<hi, lo>>, <<>>)>>
               \/ \E k \in 0..Hdr(tr) - 1 :                                                  \* cut below a header
                     phase' = <<"c", tr, m, cap, 0, "s", Take(Request(tr, FALSE, m = 1, Sq, Ad, 1, <<>>), k)>>
 Spec == Init /\ [][Next]_phase
@@ -39,6 +41,7 @@ WireOf == Wire(phase[2], phase[7])
 Allowed == RxAllowedFor(Cfg, phase[5] = 1, 0, <<0, 0>>, Data, WireOf)
 ReplyOf(ob) == LET i == CHOOSE k \in 1..Len(ob) : ob[k] = -7 /\ \A j \in 8..k - 1 : ob[j] # -7 IN Unframe(phase[2], Drop(ob, i))
 NoReply(ob) == ob[Len(ob)] = -7
+Match(o) == Has(Fields(o).opts, O_WS16) <=> Cfg.mem16        \* (a word-size mismatch is answered as such before anything else: C06)
 C09Holds ==
     phase[1] = "c" =>
         LET o == phase[7]
@@ -53,11 +56,11 @@ C09Holds ==
                        ob[3] = 0 /\ ob[7] = 0 /\ LET g == Fields(ReplyOf(ob).frame) IN g.meta = EBUSY /\ g.sq = Sq /\ g.addr = Ad /\ g.type = Fields(o).type + 1)
               /\ (Len(o) >= 12 /\ phase[5] = 0 /\ Len(o) > cap =>                                               \* frame too large for the block
                        ob[7] = 0 /\ LET g == Fields(ReplyOf(ob).frame) IN g.meta = ERXOVERFLOW /\ g.sq = Sq /\ g.addr = Ad /\ g.type = Fields(o).type + 1)
-              /\ (phase[6] = "r" /\ phase[5] = 0 /\ Len(o) <= cap /\ ReadTooBig(Cfg, o) =>                      \* answer cannot fit
+              /\ (phase[6] = "r" /\ Match(o) /\ phase[5] = 0 /\ Len(o) <= cap /\ ReadTooBig(Cfg, o) =>                      \* answer cannot fit
                        ob[7] = 0 /\ LET r == ReplyOf(ob).frame
                                         g == Fields(r)
                                     IN g.meta = ETXOVERFLOW /\ g.sq = Sq /\ g.addr = Ad /\ PayloadOf(r) = W4(<<0, cap>>))
-              /\ (phase[6] = "r" /\ phase[5] = 0 /\ Len(o) <= cap /\ ReadFits(Cfg, o) =>                        \* answer fits: served
+              /\ (phase[6] = "r" /\ Match(o) /\ phase[5] = 0 /\ Len(o) <= cap /\ ReadFits(Cfg, o) =>                        \* answer fits: served
                        ob[7] = 1 /\ Fields(ReplyOf(ob).frame).meta = ACK)
 EmitCases == phase[1] = "c" =>
     PrintT("C;;rx " \o Join(<<0, phase[2], phase[3], phase[4], phase[5], 0, 0, 0, Len(Data)>> \o Data \o <<Len(WireOf)>> \o WireOf)
